@@ -541,12 +541,44 @@ def run(chk, pid):
                       {'e2e': True, 'path': b['path'], 'verb': b['verb'], 'clauses': ['EndToEnd']})
     if pid == 'C01':
         rule_syntax(chk, rng, thorough)
+        unicode_classes(chk)
     chk.extra['assumptions'] = ['Python re is trusted; only the filter family {plain, int, float, re(to.), re([a-z]+), path} is modelled',
                                 'request paths are compared after strip("/") as resolve documents; rex selectors are out of scope',
                                 'prefix-wildcard removal is exercised only on prefixes without hooks beneath']
     chk.extra['rule'] = ('TLC state-cover + simulated edit histories replayed on the real router in random syntax flavours, and random '
                          'rule universes/histories; after every operation the projected tree/indexes and sampled probe answers are '
                          'recorded and judged by TLC against the rule-by-rule reference; distinct by operation sequence')
+
+
+def unicode_classes(chk):
+    """Filters written with the character classes of the expression language (\\w, \\d: classes that cannot reach across a separator) on paths with non-ASCII
+    text.  The plain rule-by-rule matcher is the expression language itself: the rule, written out as ONE expression over
+    the whole path, is matched with Python's re; the router must select the rule exactly when that matches and bind the
+    same texts.  (Judged in the harness: these expressions are outside the transcribed filter set of Router.tla.)"""
+    import re
+    from ombott import Ombott
+    from harness.checks.bodylib import base_environ, call_app
+    cases = [('/user/<name:re(\\w+)>/posts', r'user/(?P<name>\w+)/posts', ['/user/zo\xeb/posts', '/user/bob/posts', '/user/\u0416\u0443\u043a/posts', '/user/a-b/posts']),
+             ('/w/<a:re(\\w+)><b:re(.*)>', r'w/(?P<a>\w+)(?P<b>.*)', ['/w/caf\xe9!', '/w/abc!', '/w/\u4e2d\u6587.x']),
+             ('/n/<num:re(\\d+)>', r'n/(?P<num>\d+)', ['/n/\u0663\u0664', '/n/34', '/n/x'])]
+    for rule, whole, paths in cases:
+        app = Ombott()
+        got = {}
+
+        def h(**kw):
+            got.update(kw)
+            return 'ok'
+        app.route(rule, callback=h)
+        for path in paths:
+            got.clear()
+            ref = re.fullmatch(whole, path.strip('/'))
+            status, line, headers, body, nsr = call_app(app, base_environ(PATH_INFO=path.encode('utf8').decode('latin1')))
+            chk.count(1, ('unicode-class', rule, path))
+            ok = (status == 200 and dict(got) == ref.groupdict()) if ref else status == 404
+            if not ok:
+                chk.violation("C01: ['Resolve404' or 'Params'] fails: rule %r on path %r -> status %s, handler got %s; the rule as one expression %s"
+                              % (rule, path, status, dict(got), ('matches with %s' % ref.groupdict()) if ref else 'does not match'),
+                              {'rule': rule, 'path': path, 'clauses': ['Params' if status == 200 else 'Resolve404'], 'unicode_class': True})
 
 
 def rule_syntax(chk, rng, thorough):
